@@ -109,9 +109,9 @@ func run(doc, mode string) (out string, err error, pan string) {
 
 func lineAlphabet(u string) []string {
 	return []string{"- a", "- b", u + "- a", u + "- b", u + u + "- a", u + u + u + "- a", u[:len(u)/2] + " - a", u + "a", u + "-", "\t " + "- a", "", "   ", "# h", "* a", "+ b.go", u + "* b",
-		u + "- x/y",   // not a valid path element: dry run must reject it (in both builds, whatever was rendered before)
+		u + "- x/y",     // not a valid path element: dry run must reject it (in both builds, whatever was rendered before)
 		"- r/s", "- ..", // the same for a root (with or without items below it)
-		u + "- <&>\"", // characters with special treatment in JSON / HTML
+		u + "- <&>\"",               // characters with special treatment in JSON / HTML
 		u + "- p ├── └── +-- `-- q", // a name that contains every connector in use, each followed by a blank
 	}
 }
